@@ -221,6 +221,11 @@ def catalogue(sh):
     ops["symbolic_arg_shared"] = symbolic_arg_shared
     ops["fail_tree_2nd_leaf"] = lambda: ctx(lambda: isinstance([A(2), (A(3),)], sh.tree))
     ops["q_tree"] = lambda: ctx(lambda: (isinstance([A(2), A(3)], sh.q), isinstance([A(2), A(4)], sh.q)))
+    # the same kinds of check made OUTSIDE every context (a context that ends puts per-thread check state back to
+    # what it was when it began, which would hide state left behind by something that failed inside it)
+    ops["q_tree_toplevel"] = lambda: (isinstance([A(2), A(3)], sh.q), isinstance({"a": A(2), "b": (A(4),)}, sh.q))
+    ops["nested_pytree_toplevel"] = lambda: real.check([[A(2), A(2)], A(2)], PyTree[PyTree[Shaped[N, "?k"]], "T"])
+    ops["fail_tree_2nd_leaf_toplevel"] = lambda: isinstance([A(2), (A(3, dt="int32"),)], sh.tree)
     ops["raise_tree_unbound_struct"] = lambda: ctx(lambda: real.check([A(2)], PyTree[Float[N, "a"], "S T"]))
     ops["nested_pytree"] = lambda: ctx(lambda: real.check([[A(2), A(2)], A(2)], PyTree[PyTree[Shaped[N, "?k"]], "T"]))
     ops["two_structured"] = lambda: ctx(lambda: real.check([[A(2)]], PyTree[PyTree[Shaped[N, "?k"], "S"], "T"]))
